@@ -380,10 +380,11 @@ fn builtin_time(args: Vec<Rc<Object>>) -> Result<Rc<Object>, String> {
         return Err(format!("takes no argument(s). got={}", args.len()));
     }
     let current_time = SystemTime::now();
-    let duration = current_time
-        .duration_since(UNIX_EPOCH)
-        .expect("Time went backwards");
-    let seconds = duration.as_secs() as i64;
+    // A clock set before the epoch is reported as time zero
+    let seconds = match current_time.duration_since(UNIX_EPOCH) {
+        Ok(duration) => duration.as_secs() as i64,
+        Err(_) => 0,
+    };
     Ok(Rc::new(Object::Integer(seconds)))
 }
 
